@@ -91,27 +91,6 @@ theorem whitelist_exact : whitelist.Exact where
       simp only [whitelist, Option.some.injEq, Prod.mk.injEq] at he; rw [← he.1, ← he.2]; rfl
   noLeak := fun _ _ => rfl
 
-theorem management_exact : management.Exact where
-  step := by
-    intro s h o s' c' he
-    cases o with
-    | deploy hh =>
-      simp only [management] at he
-      split at he
-      · simp at he
-      · simp only [Option.some.injEq, Prod.mk.injEq] at he; rw [← he.1, ← he.2]; rfl
-    | update hh =>
-      simp only [management] at he
-      split at he
-      · simp at he
-      · simp only [Option.some.injEq, Prod.mk.injEq] at he; rw [← he.1, ← he.2]; rfl
-    | destroy hh =>
-      simp only [management] at he
-      split at he
-      · simp at he
-      · simp only [Option.some.injEq, Prod.mk.injEq] at he; rw [← he.1, ← he.2]; rfl
-  noLeak := fun _ _ => rfl
-
 theorem maxEntry_cons_other (e : (Nat × Nat) × List Nat) (s : RoleStore) (r : Nat) (h : e.1.1 ≠ r) :
     maxEntry (e :: s) r = maxEntry s r := by
   simp [maxEntry, h]
